@@ -39,6 +39,7 @@ from . import fits              # noqa
 from . import constraints_c     # noqa
 from . import supervised        # noqa
 from . import c16_calibration   # noqa
+from . import c11_itml          # noqa
 
 
 # every contract contributes a unit to each property it is tagged with (prop=[...])
